@@ -173,7 +173,7 @@ func (w *World) EnumIssues(fm *FileModel) []Issue {
 			out = append(out, Issue{Rule: "A-ENUM", Construct: "enum without membership loop", Msg: what + ": UnmarshalJSON of " + ft + " has no reflect.DeepEqual membership test"})
 		}
 		// number of listed values
-		wantN := map[string]int{"strings": 2, "ints": 2, "numbers": 2, "bools": 2, "mixed": 4, "null": 1, "lookalike": 6, "collide": 3, "strings+null": 3}[s.Enum]
+		wantN := map[string]int{"strings": 2, "ints": 2, "numbers": 2, "bools": 2, "mixed": 4, "null": 1, "lookalike": 6, "collide": 3, "collide4": 4, "strings+null": 3}[s.Enum]
 		if len(ei.Elems) != wantN {
 			out = append(out, Issue{Rule: "A-ENUM", Construct: "value table does not list every enum value", Msg: fmt.Sprintf("%s: the schema lists %d values, the table %v has %d: a listed value is rejected (or an unlisted one accepted)", what, wantN, ei.ElemText, len(ei.Elems))})
 		}
